@@ -248,7 +248,12 @@ def collect_rules(ctx, prog):
     ctx.ob('C02.block_crc', 'collect() stores the CRC and the block length back into the encoder state on every exit',
            f.loc(rets[0].term), all(need.values()), str(need))
     writeback(ctx, prog, f, P, 'rle_state')
-    owed_count_rule(ctx, prog)
+    # what is written into the block (copies, counts, the owed count at a block end) and the CRC that goes with it:
+    # the abstract walk of collect()/encode() (lib/rleabs.py, built for C04) -- it replaces the structural
+    # 'owed count' rule, which alarmed on behaviour-preserving rewrites of collect()
+    from props import c04
+    ent = c04.collect_rule(ctx, prog, pfx='C02', only=('capacity', 'fourth', 'data', 'count', 'carry', 'consumed', 'crc', 'assert'))
+    c04.flush_rule(ctx, prog, ent, pfx='C02')
 
 
 def owed_count_rule(ctx, prog):
